@@ -14,7 +14,7 @@ GATES = {
     'quick': {'evaluations': 15000, 'claim_calls': 4000, 'claim_calls_moving_zero_width': 30, 'claim_calls_raising': 300,
               'attribute_reads': 100000, 'wrapper_reads': 15000, 'deepcopies': 1000, 'comparisons': 1000, 'auto_claim_calls': 800,
               'pingpong_sequences': 1500},
-    'thorough': {'evaluations': 400000, 'claim_calls_moving_zero_width': 4000},
+    'thorough': {'evaluations': 400000, 'claim_calls_moving_zero_width': 800},
 }
 RULE = ('case = one accepted generated comment-dense document (either attribution mode, half of them in 2..5-token blocks so that claim '
         'splices cross block boundaries) and a random sequence of 5..40 non-edit calls: reading every public attribute of a model (and '
